@@ -886,6 +886,19 @@ func (p *prop) Generate(rng *core.Rand, tier string, emit func(string)) {
 		}
 		emit(rrLine(mode, strings.Join(f, " ")))
 	}
+	// several requests through ONE Encode instance (pooled encoders handed from response to response)
+	nmr := 250
+	if tier == "thorough" {
+		nmr = 4000
+	} else if tier == "search" {
+		nmr = 1200
+	}
+	for i := 0; i < nmr; i++ {
+		emit(g.mrCase())
+	}
+	for _, m := range []string{"mr 1 gzip - 0 d G ~ 0 ~ ~ ~ 1 -", "mr 2 gzip - 0 d G ~ 0 ~ ~ ~ 1 -", "mr 2 gzip - 0 d G ~ 0 ~ ~ ~ 1 - gzip - 1 d G ~ 0 ~ ~ ~ 1 -", "mr 2 gzip - 0 d G ~ 0 ~ ~ ~ 1 - gzip - 0 d X ~ 0 ~ ~ ~ 1 -", "mr 5 gzip - 0 d G ~ 0 ~ ~ ~ 1 -", "mr"} {
+		emit(m)
+	}
 	for _, m := range []string{"rr 3 gzip - 0 d G ~ 0 ~ ~ ~ 1 -", "rr x gzip - 0 d G ~ 0 ~ ~ ~ 1 -", "rr 1 gzip - 0 d G ~ 0 ~ ~ ~ 1", "rr 1 gzip - 0 d G ~ 0 ~ ~ ~ 1 - -"} {
 		emit(m)
 	}
